@@ -77,3 +77,20 @@ Proof.
   unfold select. induction l as [|x l IH]; simpl; [constructor|].
   destruct (keep x); [apply sl_keep | apply sl_skip]; auto.
 Qed.
+
+(* ---- the keys as they are WRITTEN in direct_model.py (Gen/C10_code.v) are the model's, as sets ---- *)
+From SM Require Import Gen.C10_code.
+Lemma code_accepted_for_same (p : par) k : memb k (code_accepted_for p) = memb k (accepted_for p).
+Proof.
+  destruct p as [n d]. unfold code_accepted_for, accepted_for, memb. cbn [fst snd].
+  destruct d; cbn [existsb];
+    repeat match goal with |- context [String.eqb k ?x] => destruct (String.eqb k x) end; reflexivity.
+Qed.
+Lemma memb_flat_map (f g : par -> list string) table k :
+  (forall p, memb k (f p) = memb k (g p)) -> memb k (flat_map f table) = memb k (flat_map g table).
+Proof.
+  intros H. induction table as [|p r IH]; [reflexivity|].
+  unfold memb in *. cbn [flat_map]. rewrite !existsb_app. rewrite H, IH. reflexivity.
+Qed.
+Theorem code_accepted_same table k : memb k (flat_map code_accepted_for table) = memb k (accepted table).
+Proof. unfold accepted. apply memb_flat_map. intros p. apply code_accepted_for_same. Qed.
